@@ -138,7 +138,7 @@ class _P(html.parser.HTMLParser):
 
 def index_output(out):
     """-> {'files': set, 'pages': {name: {'links': [...], 'anchors': set, 'entries': [...]}}, 'inventory': {name: url}, 'search': [...]}"""
-    idx = {'files': set(), 'pages': {}, 'inventory': {}, 'search_names': set()}
+    idx = {'files': set(), 'pages': {}, 'inventory': {}, 'search_names': set(), 'search_privacy': {}}
     for dp, dn, fn in os.walk(out):
         for f in fn:
             rel = os.path.relpath(os.path.join(dp, f), out)
@@ -164,6 +164,10 @@ def index_output(out):
         # one <li id="<full name>"> per search document (the fullName div itself carries <wbr> break points)
         for m in re.finditer(r'<li id="([^"]+)"', text):
             idx['search_names'].add(html.unescape(m.group(1)))
+        for m in re.finditer(r'<li id="([^"]+)"(.*?)</li>', text, re.S):
+            pm = re.search(r'<div class="privacy">([^<]*)</div>', m.group(2))
+            if pm:
+                idx['search_privacy'][html.unescape(m.group(1))] = pm.group(1).strip()
         for m in re.finditer(r'<div class="fullName">(.*?)</div>', text, re.S):
             idx['search_names'].add(html.unescape(re.sub(r'<[^>]+>', '', m.group(1))))
         # the address of each search document is what the search results link to (relative to the output directory)
